@@ -570,10 +570,81 @@ def _statement_forms(fn: ast.AST) -> None:
             i += 1
 
 
+_BUILTIN_SUPERS = {'bool': ('int',), 'int': (), 'str': (), 'list': (), 'dict': (), 'tuple': (), 'float': (), 'set': (), 'frozenset': (), 'bytes': ()}
+
+
+def _lower_singledispatch(ctx: RuleCtx, mod: Module) -> None:
+    """`@functools.singledispatch def g(a, ..): DEFAULT` + `@g.register(C) def impl(a, ..)` (module level)  ->
+       `def g(a, ..): if isinstance(a, C): return impl(a, ..) ... DEFAULT`, the registered classes tested most-derived first
+    (singledispatch picks the registered class that comes first in the MRO of type(a)).  Closed world: every use of
+    `g.register`/`g.dispatch`/`g.registry` in mesonbuild must be one of these module-level decorators, the registered classes
+    must resolve, and no class of the module may inherit from two unrelated registered classes - else Undecided."""
+    top = [st for st in mod.tree.body if isinstance(st, ast.FunctionDef)]
+    for g in top:
+        sd = [d for d in g.decorator_list if (attr_chain(d) or '').split('.')[-1] == 'singledispatch']
+        if not sd:
+            continue
+        ps = _pos_params(g)
+        if not ps or g.args.vararg or g.args.kwarg or g.args.kwonlyargs:
+            raise Undecided(f'{g.name}: singledispatch generic function with an unusual signature')
+        regs: T.List[T.Tuple[str, ast.FunctionDef]] = []
+        understood = 0
+        for f in top:
+            for d in f.decorator_list:
+                if isinstance(d, ast.Call) and attr_chain(d.func) == f'{g.name}.register' and len(d.args) == 1 and not d.keywords \
+                        and isinstance(d.args[0], ast.Name):
+                    regs.append((d.args[0].id, f))
+                    understood += 1
+                elif attr_chain(d) == f'{g.name}.register' and f.args.args and isinstance(f.args.args[0].annotation, ast.Name):
+                    regs.append((f.args.args[0].annotation.id, f))
+                    understood += 1
+        uses = 0
+        for rel in ctx.repo.py_files('mesonbuild'):
+            src = mod.src if rel == mod.rel else ctx.repo.read(rel)
+            for w in ('.register', '.dispatch', '.registry'):
+                uses += src.count(g.name + w)
+        if uses != understood:
+            raise Undecided(f'{g.name}: singledispatch generic function with {uses} uses of register/dispatch/registry, {understood} of them '
+                            'module-level `@register(Class)` decorators in its own module')
+        supers: T.Dict[str, T.Set[str]] = {}
+        for cname, _ in regs:
+            if cname in _BUILTIN_SUPERS:
+                supers[cname] = set(_BUILTIN_SUPERS[cname]) | {cname}
+            elif mod.has_cls(cname):
+                supers[cname] = {c.name for _, c in ctx.repo.mro(mod, mod.cls(cname))}
+            else:
+                raise Undecided(f'{g.name}: singledispatch implementation registered for `{cname}`, which is not a class of the module')
+        if len(supers) != len(regs):
+            raise Undecided(f'{g.name}: two singledispatch implementations registered for one class')
+        names = set(supers)
+        for cname, cnode in mod.classes().items():
+            mine = [n for n in names if n in {c.name for _, c in ctx.repo.mro(mod, cnode)}]
+            for x in mine:
+                for y in mine:
+                    if x not in supers[y] and y not in supers[x]:
+                        raise Undecided(f'{g.name}: class {cname} inherits from the unrelated registered classes {x} and {y}')
+        regs.sort(key=lambda r: -len(supers[r[0]]))
+        for _, f in regs:
+            fp = _pos_params(f)
+            if len(fp) != len(ps) or f.args.vararg or f.args.kwarg or f.args.kwonlyargs:
+                raise Undecided(f'{g.name}: singledispatch implementation {f.name} has another signature')
+        arms: T.List[ast.stmt] = []
+        for cname, f in regs:
+            arms.append(ast.If(
+                test=ast.Call(func=ast.Name(id='isinstance', ctx=ast.Load()), args=[ast.Name(id=ps[0], ctx=ast.Load()), ast.Name(id=cname, ctx=ast.Load())], keywords=[]),
+                body=[ast.Return(value=ast.Call(func=ast.Name(id=f.name, ctx=ast.Load()), args=[ast.Name(id=p, ctx=ast.Load()) for p in ps], keywords=[]))],
+                orelse=[]))
+        for a in arms:
+            ast.fix_missing_locations(ast.copy_location(a, g.body[0]))
+        g.body[:0] = arms
+        g.decorator_list = [d for d in g.decorator_list if d not in sd]
+
+
 def _m(ctx: RuleCtx, rel: str) -> Module:
     """The module in the pack's normal form (see above)."""
     mod = ctx.repo.module(rel)
     if not getattr(mod, '_c08_normal', False):
+        _lower_singledispatch(ctx, mod)     # may raise Undecided: then for every rule that reads the module
         mod._c08_normal = True  # type: ignore[attr-defined]
         _Normalise(ctx.repo, mod).visit(mod.tree)
         _fold_named_constants(mod)
